@@ -751,6 +751,8 @@ class LineWorld:
             if d.get('cycles') or d.get('offsets'):
                 o.add_receive_part_callback(CycleByOrdinal(d.get('cycles'), d.get('offsets')))
             o.add_receive_part_callback(self.hub.on_receive)
+            if d.get('recv_dv'):
+                o.add_receive_part_callback(AddValue(d['recv_dv'], 0))     # the part is marked down / up on receipt
         if isinstance(o, PartProcessor):
             if d.get('dv') or d.get('dq'):
                 o.add_finish_processing_callback(AddValue(d.get('dv', 0), d.get('dq', 0)))
